@@ -322,7 +322,7 @@ func (g *replayGen) build(term string, t types.Type, depth int) (string, bool) {
 			for _, x := range ts {
 				bs = append(bs, g.vals[x])
 			}
-			return "string([]byte{" + strings.Join(bs, ",") + "})", true
+			return g.typeStr(t) + "([]byte{" + strings.Join(bs, ",") + "})", true
 		case u.Info()&(types.IsInteger|types.IsBoolean|types.IsFloat) != 0:
 			if !g.ask(term) {
 				return "", false
